@@ -33,6 +33,8 @@ pub enum Kind {
 pub enum TEvent {
     Start { n: u32, api: Api, kind: Kind, clear_at_once: bool },
     Clear { n: u32 },
+    /// old API only: the app clears the same timer a second time (it kept the id)
+    ClearAgain { n: u32 },
     DropHandle { n: u32 },
     Outcome { n: u32, completed: bool },
     LegacyOutcome { n: u32, resp: TimeResponse },
@@ -44,6 +46,7 @@ pub enum TEvent {
 pub struct TModel {
     handles: BTreeMap<u32, TimerHandle>,
     legacy_ids: BTreeMap<u32, TimerId>,
+    cleared_legacy_ids: BTreeMap<u32, TimerId>,
     log: Vec<TLog>,
 }
 
@@ -158,6 +161,13 @@ fn update_impl(ev: TEvent, model: &mut TModel, caps: Option<&TCaps>) -> Cmd {
                 h.clear();
             } else if let (Some(id), Some(caps)) = (model.legacy_ids.remove(&n), caps) {
                 caps.time.clear(id);
+                model.cleared_legacy_ids.insert(n, id);
+            }
+            Command::done()
+        }
+        TEvent::ClearAgain { n } => {
+            if let (Some(id), Some(caps)) = (model.cleared_legacy_ids.get(&n).copied(), caps) {
+                caps.time.clear(id);
             }
             Command::done()
         }
@@ -223,6 +233,8 @@ pub enum THost {
 pub enum TAction {
     Start { n: u32, api: Api, kind: Kind, clear_at_once: bool },
     Clear { n: u32 },
+    /// old API: a second clear of a timer that is cleared and still pending (a double-tapped cancel)
+    ClearAgain { n: u32 },
     DropHandle { n: u32 },
     /// the timer service answers request `which` of timer n (fire / confirm clear)
     Answer { n: u32, which: Which },
@@ -716,6 +728,7 @@ impl TimeCheck {
                     r.timers.insert(started, RTimer { api, st: RSt::Done, handle_alive: true, main_req_alive: true, main_answered: false, clear_req_alive: false, outcome: None, legacy_cleared: false, cleared_after_outcome: false });
                     a
                 }
+                1 if legacy_share == (2, 3) && rng.chance(1, 3) => TAction::ClearAgain { n },
                 1 => TAction::Clear { n },
                 2 => TAction::DropHandle { n },
                 3 => TAction::Answer { n, which: Which::Main },
@@ -867,6 +880,17 @@ fn run_scn_inner(s: &TScn, cov: &mut Cov, occupancy: bool) -> Result<RunInfo, Vi
                     faults += 1;
                     r.clear(*n, &mut rout);
                     host.event(TEvent::Clear { n: *n }, &mut shell, &mut out);
+                }
+                TAction::ClearAgain { n } => {
+                    let applies = r.timers.get(n).is_some_and(|t| t.api == Api::Legacy && t.legacy_cleared && !t.cleared_after_outcome && t.outcome.is_none());
+                    if !applies {
+                        continue;
+                    }
+                    cov.bump("fault:app_clears_again");
+                    faults += 1;
+                    // the old API's clear is a plain notification: it goes out again
+                    rout.sent.push((*n, Which::Clear));
+                    host.event(TEvent::ClearAgain { n: *n }, &mut shell, &mut out);
                 }
                 TAction::DropHandle { n } => {
                     cov.bump("fault:handle_dropped");
